@@ -31,6 +31,9 @@ type Case struct {
 	B     vkit.B `json:"b,omitempty"` // second operand of the two-argument sem helpers; second content of equal length for the message test
 	Rule  int    `json:"rule"`
 	Limit int    `json:"max_input_length"`
+	// KeysSet/Keys: size.MaxObjectKeys is set to Keys for the case (0 disables that limit); serial phases only.
+	KeysSet bool `json:"max_object_keys_set,omitempty"`
+	Keys    int  `json:"max_object_keys,omitempty"`
 }
 
 type (
@@ -287,6 +290,11 @@ func judge(c Case, w *vkit.W) {
 	limit := c.Limit
 	if limit < 0 {
 		limit = defaults[c.Pkg]
+	}
+	if c.KeysSet {
+		oldKeys := size.MaxObjectKeys
+		size.MaxObjectKeys = c.Keys
+		defer func() { size.MaxObjectKeys = oldKeys }()
 	}
 	a := []byte(c.A)
 	tl := tooLongErr(c.Pkg)
@@ -619,6 +627,59 @@ func TestCheck(t *testing.T) {
 						}
 					}
 					restore()
+				}
+			}
+		})
+	})
+
+	// Phase B11: the size object form under every kind of MaxObjectKeys setting: objects with 0..40, 100 and 1000 members (known,
+	// unknown, repeated, empty keys; short enough for the default input limit where they can be), each setting of the key limit
+	// (disabled, small, the default, just above it, large, the largest int), default and disabled input limits.
+	r.Phase("B11: size JSON objects with 0..40, 100, 1000 members x MaxObjectKeys in {0, 1, 2, 15, 16, 17, 18, 32, 33, 64, 1000, MaxInt} x rule words x default and disabled input limit", func() {
+		r.Serial(func(w *vkit.W) {
+			counts := []int{100, 1000}
+			for n := 0; n <= 40; n++ {
+				counts = append(counts, n)
+			}
+			for _, n := range counts {
+				var docs []string
+				for _, style := range []int{0, 1, 2, 3} {
+					var sb strings.Builder
+					sb.WriteByte('{')
+					for i := 0; i < n; i++ {
+						if i > 0 {
+							sb.WriteByte(',')
+						}
+						switch {
+						case style == 0: // empty keys: the shortest members there are
+							sb.WriteString(`"":0`)
+						case style == 1 && i == n-1:
+							sb.WriteString(`"value":3`)
+						case style == 1:
+							sb.WriteString(`"` + strconv.Itoa(i%10) + `":0`)
+						case style == 2 && i%2 == 0:
+							sb.WriteString(`"unit":"B"`)
+						case style == 2:
+							sb.WriteString(`"value":1`)
+						default:
+							sb.WriteString(`"k` + strconv.Itoa(i) + `":{"a":[` + strconv.Itoa(i) + `]}`)
+						}
+					}
+					sb.WriteByte('}')
+					docs = append(docs, sb.String())
+				}
+				for _, doc := range docs {
+					for _, keys := range []int{0, 1, 2, 15, 16, 17, 18, 32, 33, 64, 1000, math.MaxInt} {
+						for _, lim := range []int{-1, 0} {
+							restore := setLimit("size", lim)
+							for _, rule := range []int{0, 2, 3, 6, 7, 15} {
+								c := Case{Pkg: "size", A: vkit.B(doc), Rule: rule, Limit: lim, KeysSet: true, Keys: keys}
+								judge(c, w)
+								w.EvalRandom(vkit.Hash64("B11", doc, strconv.Itoa(rule), strconv.Itoa(lim), strconv.Itoa(keys)), true)
+							}
+							restore()
+						}
+					}
 				}
 			}
 		})
